@@ -297,6 +297,27 @@ EXTRA = {
     'C20': "A client that resets its connection before the node accepts it.",
 }
 
+# additions of the twelfth wave
+EXTRA12 = {
+    'C01': "Every candidate is offered once more at the head of every state with the checkpoint horizon at the parent's height (a scaled stand-in for the shipped 163,000), including candidates that state their parent's height: full validation is due just above a horizon whatever height a block states.",
+    'C02': "The horizon pass of C01; a transaction paying one key twice with the reward claiming the value of either output.",
+    'C03': "A fourth payload menu: two outputs of one transaction / one reward with the same amount and key, the later one spent.",
+    'C04': "The node's own miner as a source of blocks: for every 4-block (5-block) sequence relayed to a real node and every i <= j, work is requested after arrival i and the block found after arrival j.",
+    'C05': "The horizon pass of C01 (a block stating its parent's height must be refused).",
+    'C06': "One block with 64 transactions (two-octet transaction count): quick takes header, count, first two and last transaction; thorough every bit.",
+    'C07': "Store read-back of competing blocks carrying the same transaction (one flush / one flush per block): every id is the hash of the encoding and was written.",
+    'C08': "A block with a 1,201-output transaction under six batchings.",
+    'C09': "A second observer that repeats its greeting must still get each relay once.",
+    'C10': "Three-node lines whose end does not listen and dials the hub, longest chain at each position.",
+    'C11': "Every stream behind a genuine greeting handled by the real handler, the first read ending inside / at / behind the greeting frame.",
+    'C13': "Three 88 kB pending transactions (more than a block), a miner work request, a confirming block, another work request: the pool holds exactly the still valid ones.",
+    'C14': "A wallet whose three largest outputs are owned K0, K1, K0 and the signer called on alternating owners.",
+    'C16': "The reward bound on a real node with fee-paying transactions pending: an empty block may claim the subsidy and not a unit more.",
+    'C17': "On a real node whose checkpoint table names the genuine block: the genuine header with every edit of the transaction list, as relay and as answer, is refused and the genuine block adopted afterwards.",
+    'C18': "select_block_slice against a cyclic read at every offset of every recorded block; select_block_height on a boundary grid.",
+    'C20': "An honest connection the node opened itself stays untouched when a peer on the same host announces other hosts with the same port.",
+}
+
 NOT_YET = "check not built yet in this revision of /verif (work in progress; see DESIGN.md section 4)"
 
 ALL = ['C%02d' % i for i in range(1, 21)]
@@ -310,6 +331,8 @@ def main():
         cat, tech, text, note, ref = CHECKS[pid]
         if pid in EXTRA:
             text = text.rstrip() + ' ' + EXTRA[pid]
+        if pid in EXTRA12:
+            text = text.rstrip() + ' ' + EXTRA12[pid]
         checks.append({
             'property_id': pid,
             'quick_cmd': './check %s --tier quick' % pid,
